@@ -519,10 +519,11 @@ static void DisasmIterator(OneChunk const* pChunk, Boolean IsData, void* pUser) 
     int          DataSize = -1;
 
     Address = pChunk->Start;
-    HexString(NumString, sizeof(NumString), Address, 0);
+    /* decimal: the only integer notation every target's assembler syntax accepts */
+    as_snprintf(NumString, sizeof(NumString), "%lu", (unsigned long)Address);
     fprintf(pData->pDestFile, "\n");
     PrTabs(pData->pDestFile, pData->MaxLabelLen, 0);
-    fprintf(pData->pDestFile, "org\t$%s\n", NumString);
+    fprintf(pData->pDestFile, "org\t%s\n", NumString);
     while (Address < pChunk->Start + pChunk->Length) {
         pLabel = LookupInvSymbol(Address);
         if (pLabel && !strncmp(pLabel, "Vector_", 7) && IsData) {
